@@ -52,6 +52,7 @@ type VerifPair struct {
 	LNet    string `json:"lnet"`
 	RNet    string `json:"rnet"`
 	RTyp    string `json:"rTyp"` // type of the pair's remote candidate: two remote candidates may share a transport address
+	ByID    bool   `json:"byId"` // the agent's id index leads to this very checklist entry
 	St      string `json:"st"`
 	Nom     bool   `json:"nom"`
 	Nos     bool   `json:"nos"`
@@ -158,7 +159,7 @@ func (a *Agent) VerifSnapshot() (s VerifSnap) { //nolint:cyclop
 		for _, p := range a.checklist {
 			s.Pairs = append(s.Pairs, VerifPair{
 				ID: p.id, L: p.Local.addrPort().String(), R: p.Remote.addrPort().String(),
-				LNet: p.Local.NetworkType().String(), RNet: p.Remote.NetworkType().String(), RTyp: p.Remote.Type().String(),
+				LNet: p.Local.NetworkType().String(), RNet: p.Remote.NetworkType().String(), RTyp: p.Remote.Type().String(), ByID: a.pairsByID[p.id] == p,
 				St: verifPairState(p.state), Nom: p.nominated, Nos: p.nominateOnBindingSuccess,
 				Reqs: int(p.bindingRequestCount), Prio: p.priority(), Ctl: p.iceRoleControlling,
 				ReqSent: p.RequestsSent(), ReqRecv: p.RequestsReceived(),
